@@ -24,7 +24,7 @@
 (*           passivationTry -> deactivate = OnDeactivate, grains.Delete(key),         *)
 (*           RemoveGrain, activated := false.                                         *)
 (* A thread is always parked in front of a gate; pc names the gate:                   *)
-(*   call | sG | iE iG iR | oE oG | cNX cG | act | fR | P | pD pR | wait woken done   *)
+(*   call | sG | iE iG iR | oE oG | cNX cG | act | fR | P | fD fX | pD pR | wait woken done *)
 (* (E = GrainExists, G = GetGrain, NX = PutGrainIfAbsent, P = PutGrain, R =           *)
 (* RemoveGrain, act / pD = inside the test grain's OnActivate / OnDeactivate).  A     *)
 (* step performs the gated operation and runs the thread to its next gate.            *)
@@ -50,7 +50,7 @@
 (*                        -> nothing to publish.                                       *)
 EXTENDS Integers, Sequences, FiniteSets, TLC
 
-CONSTANTS Nodes, Threads, Kind, Org, MaxHops, MaxFails, Defects,
+CONSTANTS Nodes, Threads, Kind, Org, MaxHops, MaxFails, MaxPutFails, Defects,
           PassDuringFlight   \* TRUE: the passivation manager may fire while an activation of the identity is in flight
                              \* on its node (idle deadline shorter than one activation; see docs/grainreg.md)
 
@@ -67,10 +67,11 @@ VARIABLES reg,      \* registry record of the identity: owner node or NoNode
           wait,     \* [Nodes -> SUBSET Threads]            threads blocked on that single-flight
           th,       \* [Threads -> thread record]
           fails,    \* remaining injected OnActivate failures
+          pfails,   \* remaining injected PutGrain failures (publication failure in finalizeGrainActivation)
           last      \* output only: the step just taken
 
-vars == <<reg, gmap, pnode, pact, live, flight, wait, th, fails, last>>
-core == <<reg, gmap, pnode, pact, live, flight, wait, th, fails>>
+vars == <<reg, gmap, pnode, pact, live, flight, wait, th, fails, pfails, last>>
+core == <<reg, gmap, pnode, pact, live, flight, wait, th, fails, pfails>>
 
 Has(d) == d \in Defects
 
@@ -84,15 +85,15 @@ Init == /\ reg = NoNode
         /\ flight = [n \in Nodes |-> NoThread]
         /\ wait = [n \in Nodes |-> {}]
         /\ th = [t \in Threads |-> T0(t)]
-        /\ fails = MaxFails
+        /\ fails = MaxFails /\ pfails = MaxPutFails
         /\ last = [t |-> "-", a |-> "init", pc |-> "-", at |-> NoNode, d |-> "-"]
 
 \* ---------------------------------------------------------------- state bundle (pure functions over it)
 S0 == [reg |-> reg, gmap |-> gmap, pnode |-> pnode, pact |-> pact, live |-> live, flight |-> flight, wait |-> wait,
-       th |-> th, fails |-> fails]
+       th |-> th, fails |-> fails, pfails |-> pfails]
 
 CommitD(s, t, a, d) == /\ reg' = s.reg /\ gmap' = s.gmap /\ pnode' = s.pnode /\ pact' = s.pact /\ live' = s.live
-                       /\ flight' = s.flight /\ wait' = s.wait /\ th' = s.th /\ fails' = s.fails
+                       /\ flight' = s.flight /\ wait' = s.wait /\ th' = s.th /\ fails' = s.fails /\ pfails' = s.pfails
                        /\ last' = [t |-> t, a |-> a, pc |-> s.th[t].pc, at |-> s.th[t].cur, d |-> d]
 Commit(s, t, a) == CommitD(s, t, a, "-")
 
@@ -242,6 +243,24 @@ Put(t) ==
   /\ At(t, "P")
   /\ Commit(EndFlight([S0 EXCEPT !.reg = th[t].cur], t, Res("ok", NoNode)), t, "P")
 
+\* ... or the publication fails (injected): finalizeGrainActivation rolls back exactly what this call created
+PutFail(t) ==
+  /\ At(t, "P") /\ pfails > 0
+  /\ Commit(IF th[t].actHere THEN [S0 EXCEPT !.pfails = @ - 1, !.th[t].pc = "fD"]              \* process.deactivate
+            ELSE IF th[t].claimed THEN [S0 EXCEPT !.pfails = @ - 1, !.th[t].pc = "fR"]          \* release the claim only
+            ELSE EndFlight([S0 EXCEPT !.pfails = @ - 1], t, Res("err", NoNode)), t, "Pfail")
+
+\* rollback deactivate: OnDeactivate, then (in the order of the code) RemoveGrain / grains.Delete
+RollDeact(t) ==
+  /\ At(t, "fD")
+  /\ Commit(IF Has("DeleteBeforeRemove")
+            THEN [S0 EXCEPT !.live = @ \ {th[t].pid}, !.gmap[th[t].cur] = 0, !.th[t].pc = "fX"]
+            ELSE [S0 EXCEPT !.live = @ \ {th[t].pid}, !.th[t].pc = "fX"], t, "deact")
+
+RollRemove(t) ==
+  /\ At(t, "fX")
+  /\ Commit(EndFlight([S0 EXCEPT !.reg = NoNode, !.gmap[th[t].cur] = 0, !.pact = @ \ {th[t].pid}], t, Res("err", NoNode)), t, "R")
+
 \* deactivate (passivation): OnDeactivate, then grains.Delete + RemoveGrain in the order of the code
 PassDeact(t) ==
   /\ At(t, "pD")
@@ -264,6 +283,7 @@ Wake(t) ==
 
 Step(t) == \/ Call(t) \/ SendGet(t) \/ IdentExists(t) \/ IdentGet(t) \/ IdentRemove(t) \/ OwnExists(t) \/ OwnGet(t)
            \/ ClaimNX(t) \/ ClaimGet(t) \/ ActOk(t) \/ ActFail(t) \/ RollbackRemove(t) \/ Put(t)
+           \/ PutFail(t) \/ RollDeact(t) \/ RollRemove(t)
            \/ PassDeact(t) \/ PassRemove(t) \/ Wake(t)
 
 Next == \E t \in Threads : Step(t)
@@ -287,6 +307,6 @@ OneInstance == Cardinality(live) <= 1
 TypeOK == /\ reg \in Nodes \cup {NoNode}
           /\ \A n \in Nodes : flight[n] \in Threads \cup {NoThread}
           /\ \A t \in Threads : th[t].pc \in {"call", "sG", "iE", "iG", "iR", "oE", "oG", "cNX", "cG", "act", "fR", "P",
-                                              "pD", "pR", "wait", "woken", "done"}
+                                              "fD", "fX", "pD", "pR", "wait", "woken", "done"}
           /\ live \subseteq pact
 =============================================================================
